@@ -88,3 +88,120 @@ contract("usim._basics.streams.Queue._await_message",
 rely("Queue", [], "self._read_mutex._owner is me and self._read_mutex._depth >= 1",
      ensures="len(self._buffer) >= len(old(self._buffer)) and self._buffer[:len(old(self._buffer))] == old(self._buffer)",
      why="guarantee clause of Queue.put/_await_message: only the holder of the read mutex removes items")
+
+
+# ====================================================================================================== Channel (C11)
+# Every consumer registers a private buffer under a fresh sentinel key; `put` appends the message to every registered
+# buffer; a consumer only ever removes items from the front of its own buffer and unregisters exactly its own key.
+model("Channel", module="usim._basics.streams",
+      fields={"_consumer_buffers": DICT(ANY, LIST(ANY)), "_notification": REF("Notification"), "_closed": BOOL},
+      final=["_notification"])
+
+invariant("Channel", "wellformed",
+          "self._notification is not None and self._notification.lock is None and self._notification.queue is None "
+          "and exact_class(self._notification, Notification)", props=["C11"])
+
+CH_SCOPE = ["Notification", "Interrupt.parked_or_scheduled", "Channel"]
+
+# what any code may do to a buffer it did not register itself: append at its end (old content stays a prefix),
+# and never unregister it
+def _grow_only(ch, cond):
+    return ("forall(anything, lambda k: implies(%s and old(k in %s._consumer_buffers), "
+            "k in %s._consumer_buffers and len(%s._consumer_buffers[k]) >= len(old(%s._consumer_buffers[k])) and "
+            "%s._consumer_buffers[k][:len(old(%s._consumer_buffers[k]))] == old(%s._consumer_buffers[k])))"
+            % ((cond,) + (ch,) * 7))
+
+G_CHANNEL = "forall(Channel, lambda c: " + _grow_only("c", "not mine(k)") + ")"
+
+rely("Channel", [], "True", ensures=_grow_only("self", "mine(k)"),
+     why="guarantee clause of every function that touches Channel._consumer_buffers (put, close, __await__, __aiter__): "
+         "a buffer registered by another invocation is only appended to and never unregistered")
+rely("Channel", [], "self._closed", ensures="self._closed", why="Channel._closed is only ever set to True")
+
+# protocol fact that is NOT proved (the Channel analogue of Queue's `assert self._closed`): a consumer woken through the
+# channel's notification finds a message in its buffer or the channel closed.  Supported by the at_suspension clauses of
+# put (every registered buffer got the item before the waiters were woken) and close (closed before waking), and by
+# the grow-only rely; the link between a wake-up signal and the buffer of its waiter is left to the paper argument.
+WOKEN_HAS_MESSAGE = ("implies(mine(sig), self._closed or forall(anything, lambda k: implies(mine(k) and k in self._consumer_buffers, "
+                     "len(self._consumer_buffers[k]) > 0)))")
+
+contract("usim._basics.streams.Channel.__init__",
+         params={"self": REF("Channel")}, inv_scope=CH_SCOPE,
+         requires=["forall(Notification, lambda n: n.lock is not self and n.queue is not self)"],
+         ensures=["not self._closed", "len(self._notification._waiting) == 0",
+                  "forall(anything, lambda k: not (k in self._consumer_buffers))"],
+         modifies=["Channel._consumer_buffers@self", "Channel._notification@self", "Channel._closed@self",
+                   "Notification._waiting", "Notification.lock", "Notification.queue"],
+         unexpected_ok=[], props=["C11"])
+
+contract("usim._basics.streams.Channel.put",
+         params={"self": REF("Channel"), "item": ANY}, inv_scope=CH_SCOPE,
+         requires=["loop.activity is me"],
+         suspends=(1, None),
+         raises={"StreamClosed": dict(when="self._closed", suspended=False,
+                                      ensures=["forall(anything, lambda k: (k in self._consumer_buffers) == old(k in self._consumer_buffers) "
+                                               "and implies(k in self._consumer_buffers, self._consumer_buffers[k] == old(self._consumer_buffers[k])))",
+                                               "loop._pending == old(loop._pending)"])},
+         # broadcast: before the producer yields, every registered buffer has the item at its end, exactly once,
+         # no buffer is added or removed, and every waiting consumer has been woken
+         at_suspension=["forall(anything, lambda k: (k in self._consumer_buffers) == old(k in self._consumer_buffers))",
+                        "forall(anything, lambda k: implies(k in self._consumer_buffers, "
+                        "       self._consumer_buffers[k] == old(self._consumer_buffers[k]) + [item]))",
+                        "len(self._notification._waiting) == 0", "not self._closed"],
+         ensures=["loop.activity is me"],
+         on_signal=["loop.activity is me"], on_close=[],
+         on_exit=[DEAD_NEW],
+         guarantee=[G_CHANNEL],
+         props=["C11", "C20"])
+
+contract("usim._basics.streams.Channel.close",
+         params={"self": REF("Channel")}, inv_scope=CH_SCOPE,
+         requires=["loop.activity is me"],
+         suspends=(1, None),
+         # pending messages stay where they are; every waiting consumer is woken when the channel becomes closed
+         at_suspension=["self._closed",
+                        "forall(anything, lambda k: (k in self._consumer_buffers) == old(k in self._consumer_buffers) "
+                        "and implies(k in self._consumer_buffers, self._consumer_buffers[k] == old(self._consumer_buffers[k])))",
+                        "implies(not old(self._closed), len(self._notification._waiting) == 0)"],
+         ensures=["loop.activity is me"],
+         on_signal=["loop.activity is me"], on_close=[],
+         on_exit=[DEAD_NEW],
+         guarantee=[G_CHANNEL],
+         props=["C11", "C20"])
+
+# await channel: one message -- the first one put after the wait started
+contract("usim._basics.streams.Channel.__await__",
+         params={"self": REF("Channel")}, returns=ANY, inv_scope=CH_SCOPE,
+         requires=["loop.activity is me"],
+         suspends=(1, None),
+         raises={"StreamClosed": dict(ensures=["self._closed"])},
+         # the message handed out is the head of the private buffer, i.e. the first one appended since registration
+         ensures=["loop.activity is me", "len(at_last_suspension(self._consumer_buffers[sentinel])) > 0",
+                  "result is at_last_suspension(self._consumer_buffers[sentinel])[0]"],
+         on_signal=["loop.activity is me"], on_close=[],
+         # the private buffer is unregistered on every exit (return, StreamClosed, cancellation, close)
+         on_exit=[DEAD_NEW, "forall(anything, lambda k: implies(mine(k) and exact_class(k, object), not (k in self._consumer_buffers)))"],
+         # registered with an empty buffer before the first suspension
+         at_suspension=["sentinel in self._consumer_buffers", "implies(suspensions() == 0, len(self._consumer_buffers[sentinel]) == 0)"],
+         assume_on_wakeup=[WOKEN_HAS_MESSAGE],
+         guarantee=[G_CHANNEL],
+         props=["C11", "C20"])
+
+# async for message in channel: every step hands out the head of the private buffer and removes exactly it;
+# the iteration ends only when the channel is closed and the private buffer is drained
+contract("usim._basics.streams.Channel.__aiter__",
+         params={"self": REF("Channel")}, inv_scope=CH_SCOPE,
+         requires=["loop.activity is me"],
+         suspends=(0, None),
+         step_ensures=["len(at_last_suspension(self._consumer_buffers[sentinel])) > 0",
+                       "result is at_last_suspension(self._consumer_buffers[sentinel])[0]",
+                       "self._consumer_buffers[sentinel] == at_last_suspension(self._consumer_buffers[sentinel])[1:]",
+                       "sentinel in self._consumer_buffers"],
+         step_suspends=(0, None),
+         ensures=["self._closed", "len(buffer) == 0"],      # `buffer`: the consumer's private list (still alive as a local)
+         loop_invariants={"while#1": ["loop.activity is me", "sentinel in self._consumer_buffers", "mine(sentinel)"],
+                          "while#2": ["loop.activity is me", "sentinel in self._consumer_buffers", "mine(sentinel)"]},
+         on_signal=[], on_close=[],
+         on_exit=[DEAD_NEW, "forall(anything, lambda k: implies(mine(k) and exact_class(k, object), not (k in self._consumer_buffers)))"],
+         guarantee=[G_CHANNEL],
+         props=["C11"])
